@@ -117,6 +117,8 @@ def enumerate_cases(tier, seed):
         for si in range(len(SCHEDULES)):
             for nd in (False, True):
                 cases.append({"fam": "T", "cfg": cfg, "sched": si, "nd": nd})
+    for c in cases:
+        c["legacy"] = True           # every case is also run through the legacy entry point pyxel.exposure_mode
     return cases
 
 
@@ -254,13 +256,24 @@ def expected_charge(cfg, step, salt):
     return 2 * v if (cfg["debug"] != "off" and cfg["charge"] == "array") else v      # m_charge + m_charge2
 
 
-def run_once(cfg, sched, nd, hier, debug, salt):
+def run_once(cfg, sched, nd, hier, debug, salt, legacy=False):
     """-> (result tree, snapshots of `last` per step, CHANGES list)"""
     import pyxel
 
     U.reset()
     det = mk.detector("ccd", ROWS, COLS)
     pipe = mk.pipeline(build_pipeline(cfg, salt, track=debug))
+    if legacy:
+        # the deprecated but public entry point pyxel.exposure_mode returns a Dataset of the buckets along 'readout_time'
+        import warnings
+
+        import xarray as xr
+
+        with warnings.catch_warnings():
+            warnings.simplefilter("ignore")
+            ds = pyxel.exposure_mode(mk.exposure(sched["times"], nd, sched["start"]), det, pipe)
+        res = xr.DataTree(dataset=ds.rename({"readout_time": "time"}))
+        return res, [s for name, step, s in U.SNAPS if name == "last"], list(U.CHANGES)
     res = pyxel.run_mode(mk.exposure(sched["times"], nd, sched["start"]), det, pipe, with_inherited_coords=hier,
                          debug=debug)
     snaps = [s for name, step, s in U.SNAPS if name == "last"]
@@ -320,7 +333,8 @@ def check_record(res, snaps, sched, cfg, layout, bad, salt=0):
     if len(snaps) != n:
         raise RuntimeError(f"harness: {len(snaps)} snapshots for {n} steps")
     ds = bucket_dataset(res)
-    labels = [start + t for t in times]
+    # (the legacy Dataset is indexed by 'readout_time' = t_i; the current result by the absolute time start + t_i)
+    labels = list(times) if layout == "legacy" else [start + t for t in times]
     steps = "1" if n == 1 else ">=2"
     for b in U.BUCKETS:
         if cfg[b] == "none":
@@ -389,9 +403,9 @@ def check_record(res, snaps, sched, cfg, layout, bad, salt=0):
             if not ok:
                 bad("image-dtype", f"[{layout}] image variable has dtype {var.dtype}, the detector's image is {want}",
                     layout=layout, dtype=str(want), steps=steps)
-    # scene and processed data: returned unchanged
+    # scene and processed data: returned unchanged (the legacy entry point returns the buckets only)
     final = snaps[-1]
-    for name in ("scene", "data"):
+    for name in (() if layout == "legacy" else ("scene", "data")):
         try:
             got = res["/" + name]
         except KeyError:
@@ -519,6 +533,15 @@ def run_case(case):
         c, sh = check_record(res, snaps, sched, cfg, layout, bad, salt)
         compared += c
         shapes[layout] = sh
+    if case.get("legacy") and "wl" not in cfg["photon"]:      # (the legacy entry refuses multi-wavelength photons loudly)
+        try:
+            res_l, snaps_l, _ = run_once(cfg, sched, nd, True, False, salt, legacy=True)
+        except Exception as e:  # noqa: BLE001
+            bad("raised", f"[legacy] pyxel.exposure_mode raised {type(e).__name__}: {str(e)[:300]}", layout="legacy", steps=steps,
+                scene=cfg["scene"], photon3d=("wl" in cfg["photon"]))
+        else:
+            c, _ = check_record(res_l, snaps_l, sched, cfg, "legacy", bad, salt)
+            compared += c
     if "hier" in results and "flat" in results:
         compare_layouts(results["flat"][0], results["hier"][0], "flat versus hierarchical layout", "layout-differs", bad)
         compared += 1
